@@ -573,6 +573,17 @@ func checkGUID(b []byte, tag string, useAlias bool, full bool, pick uint32) {
 		if out := g.ToBytes(); !bytes.Equal(out, b) {
 			r.Violation("guid.ToBytes:roundtrip", fmt.Sprintf("ToBytes(FromRawBytes(%x)) = %x", b, out), cs)
 		}
+		// the GUID as the leading 16 bytes of a longer buffer (an entry of a larger structure): the
+		// value read is that of the first 16 bytes
+		for _, extra := range [][]byte{{0xEE}, {1, 2, 3, 4, 5, 6, 7, 8}, bytes.Repeat([]byte{0xFF}, 16)} {
+			var g2 guid.GUID
+			long := append(append([]byte{}, b...), extra...)
+			p2, _, _ := mon.Guard(func() { g2.FromRawBytes(long) })
+			ev(1)
+			if !p2 && g2 != *wantG && g2 != (guid.GUID{}) {
+				r.Violation("guid.FromRawBytes:longer-buffer:"+firstDiff(&g2, wantG), fmt.Sprintf("FromRawBytes(%x followed by %d more bytes) = %s want %s", b, len(extra), guidFields(&g2), guidFields(wantG)), cs)
+			}
+		}
 		if out := wantG.ToBytes(); !bytes.Equal(out, rg.raw()) {
 			r.Violation("guid.ToBytes:value", fmt.Sprintf("ToBytes(%s) = %x want %x", guidFields(wantG), out, rg.raw()), cs)
 		}
